@@ -4,8 +4,12 @@
 (*   Pick      an instance x at small scope;  doc := Render(x)             *)
 (*   <op>      one abstract mutation operator applied at one node of doc   *)
 (*             (at most MaxMut in a row, at nesting depth <= MutDepth)     *)
-(* and prints every distinct (type, document) once (DOC lines) together    *)
-(* with what the reference reader expects.  One action per operator, so    *)
+(*   Commit    the document becomes a frame already decoded on ONE reused  *)
+(*             decoder; the next frame is another instance (after a well-  *)
+(*             formed frame) or the unmutated instance (after a mutant)    *)
+(* and prints every distinct (type, frames, document) once (DOC lines) with*)
+(* what the reference reader expects (the reader has no memory: it expects *)
+(* the same of a document whatever was decoded before it).  One action per operator, so    *)
 (* TLC's coverage shows which operators produced documents.                *)
 (*                                                                         *)
 (* Invariants checked on the model itself:                                 *)
@@ -22,28 +26,30 @@ EXTENDS FormDoc, Json
 
 CONSTANTS Excused,    \* open findings whose (specific) circumstances excuse ReadInvertsRender
           Keys,       \* battery types of this run
+          MaxFrames,  \* documents decoded in a row by one (reused) decoder
           MaxMut,     \* mutation operators applied in a row
           MutDepth    \* nesting depth down to which a mutation is applied
 
-VARIABLES ty, inst, doc, hist
-vars == <<ty, inst, doc, hist>>
+VARIABLES ty, inst, doc, hist, sess
+vars == <<ty, inst, doc, hist, sess>>
 \* mutants are identified by (type, document); instances stay distinct even if they render alike
-View == <<ty, doc, IF hist = <<>> THEN inst ELSE NoneI>>
+View == <<ty, doc, IF hist = <<>> THEN inst ELSE NoneI, sess>>
 
 ASSUME Keys \subseteq AllKeys
 ASSUME PrintT(<<"SCHEMA", ToJson([k \in AllKeys |-> TypeOf(k)])>>)
 
-Init == ty = "" /\ inst = NoneI /\ doc = Extant /\ hist = <<>>
+Init == ty = "" /\ inst = NoneI /\ doc = Extant /\ hist = <<>> /\ sess = <<>>
 
 Pick == /\ ty = ""
         /\ \E k \in Keys : \E x \in Instances(k) :
               ty' = k /\ inst' = x /\ doc' = RenderKey(k, x) /\ hist' = <<>>
+        /\ UNCHANGED sess
 
-Mut(op) == /\ ty # ""
+Mut(op) == /\ ty # "" /\ sess = <<>>
            /\ Len(hist) < MaxMut
            /\ \E m \in MutAt(op, doc, MutDepth) : doc' = m
            /\ hist' = Append(hist, op)
-           /\ UNCHANGED <<ty, inst>>
+           /\ UNCHANGED <<ty, inst, sess>>
 
 DropItem  == Mut("dropItem")
 DupItem   == Mut("dupItem")
@@ -61,7 +67,18 @@ WrongKind == Mut("wrongKind")
 Wrap      == Mut("wrap")
 Unwrap    == Mut("unwrap")
 
-Next == \/ Pick
+\* the operators after which a frame sequence is continued (a rejected frame, then the well-formed one)
+SessOps == {"wrongTag", "dropItem", "dupItem", "extraItem", "dropAttr", "swapAttrs"}
+Commit == /\ ty # "" /\ Len(sess) + 1 < MaxFrames
+          /\ Len(hist) <= 1 /\ (hist # <<>> => hist[1] \in SessOps)
+          /\ sess' = Append(sess, doc)
+          /\ IF hist = <<>>
+             THEN \E y \in Instances(ty) : inst' = y /\ doc' = RenderKey(ty, y)
+             ELSE inst' = inst /\ doc' = RenderKey(ty, inst)
+          /\ hist' = <<>>
+          /\ UNCHANGED ty
+
+Next == \/ Pick \/ Commit
         \/ DropItem \/ DupItem \/ SwapItems \/ DropAttr \/ DupAttr \/ SwapAttrs \/ WrongTag \/ ExtraAttr
         \/ ExtraItem \/ RenameKey \/ Unslot \/ Slotify \/ WrongKind \/ Wrap \/ Unwrap
 
@@ -82,13 +99,14 @@ ExcuseF1 == "F1" \in Excused /\ \E i \in 1..Len(FieldsOf(TypeOf(ty))) :
 \* F3: a body field of type Value that holds the empty record (read back as extant)
 ExcuseF3 == "F3" \in Excused /\ \E i \in 1..Len(Live(FieldsOf(TypeOf(ty)))) :
                 LET f == Live(FieldsOf(TypeOf(ty)))[i] IN f.role = "body" /\ f.ty = VAL /\ inst.v[i] = Rec(<<>>, <<>>)
-ReadInvertsRender == (ty # "" /\ hist = <<>>) => (ReadKey(ty, doc) = Ok(inst) \/ RenderClash \/ ExcuseF1 \/ ExcuseF3)
+ReadInvertsRender == (ty # "" /\ hist = <<>> /\ sess = <<>>) => (ReadKey(ty, doc) = Ok(inst) \/ RenderClash \/ ExcuseF1 \/ ExcuseF3)
 
 Tagged(k) == TypeOf(k).kind \in {"struct", "enum"}
-WrongTagRejected == (ty # "" /\ hist = <<>> /\ Tagged(ty)) => \A m \in Local("wrongTag", doc) : ~ReadKey(ty, m).ok
+WrongTagRejected == (ty # "" /\ hist = <<>> /\ sess = <<>> /\ Tagged(ty)) => \A m \in Local("wrongTag", doc) : ~ReadKey(ty, m).ok
 
 \* printed once per distinct (type, document)
 Emit == ty # "" =>
           PrintT(<<"DOC", ToJson([ty |-> ty, ops |-> hist, doc |-> doc, inst |-> inst, exp |-> ReadKey(ty, doc),
-                                  clash |-> (hist = <<>> /\ RenderClash)])>>)
+                                  clash |-> (hist = <<>> /\ RenderClash),
+                                  sess |-> sess, exps |-> [i \in 1..Len(sess) |-> ReadKey(ty, sess[i])]])>>)
 =============================================================================
